@@ -304,6 +304,10 @@ func writeEvents(fn *ssa.Function) []writeEvent {
 				case "copy":
 					out = append(out, writeEvent{in, "copy destination", c.Args[0]})
 				case "append":
+					// a base clipped to its length (s[:h:h]) has no spare capacity: append cannot write into it
+					if sl, ok := c.Args[0].(*ssa.Slice); ok && sl.Max != nil && sl.High != nil && (sl.Max == sl.High || sym(sl.Max) == sym(sl.High)) {
+						return
+					}
 					out = append(out, writeEvent{in, "append base", c.Args[0]})
 				case "clear", "delete":
 					out = append(out, writeEvent{in, b.Name(), c.Args[0]})
@@ -325,7 +329,8 @@ func writeEvents(fn *ssa.Function) []writeEvent {
 				return
 			}
 			oc2 := origin(cal)
-			if oc2.Blocks != nil {
+			if oc2.Blocks != nil && oc2.Pkg != nil && strings.HasPrefix(oc2.Pkg.Pkg.Path(), modPath) {
+				// repository callee: summary computed from its body (standard library: frozen table above)
 				for p, why := range mutatedParams(oc2) {
 					if p < len(c.Args) {
 						out = append(out, writeEvent{in, "argument of " + fnName(oc2) + " (" + why + ")", c.Args[p]})
